@@ -51,6 +51,7 @@ type verifSlot struct {
 	nmulti uint64  // ... of which over maps with >= 2 elements (order can be observed)
 	maxcnt uint64  // largest element count iterated
 	maxB   uint64  // largest B iterated
+	neff   uint64  // iterations over >= 2 elements whose (start bucket, offset) differed from r=0
 }
 
 var verifSlots [verifNSlots]verifSlot
@@ -115,6 +116,9 @@ func verifIterStart(pc uintptr, h *hmap) uintptr {
 		if uint64(h.B) > s.maxB {
 			s.maxB = uint64(h.B)
 		}
+		if c >= 2 && (s.r&bucketMask(h.B) != 0 || uint8(s.r>>h.B&(abi.MapBucketCount-1)) != 0) {
+			atomic.Xadd64(&s.neff, 1)
+		}
 	}
 	return s.r
 }
@@ -145,7 +149,7 @@ func verifCtl(op int, a, b uintptr) uintptr {
 	case 3:
 		for i := range verifSlots {
 			s := &verifSlots[i]
-			s.n, s.nmulti, s.maxcnt, s.maxB = 0, 0, 0, 0
+			s.n, s.nmulti, s.maxcnt, s.maxB, s.neff = 0, 0, 0, 0, 0
 		}
 	case 4:
 		verifRecording = uint32(a)
